@@ -1047,8 +1047,13 @@ class Process(StateMachine, persistence.Savable, metaclass=ProcessStateMachineMe
                         f'Full Traceback:\n{tb_str}'
                     ) from exc
                 else:
-                    while asyncio.isfuture(result):
-                        result = await result
+                    try:
+                        while asyncio.isfuture(result):
+                            result = await result
+                    except asyncio.CancelledError:
+                        # The awaited (action) future was cancelled: the reply is a cancellation too
+                        kiwi_future.cancel()
+                        raise
 
                     kiwi_future.set_result(result)
 
